@@ -123,7 +123,7 @@ func init() {
 			{Name: "clisim-c06", Fn: clisim.C06CLI, ProcessLevel: true, NeedsCLI: true, Runs: map[string]int{"quick": 300, "thorough": 8000}},
 		},
 		Rule:           "one run = 3-12 steps on a real LocalDir: writers (Planner.WritePlan, WriteCheckpoint, WriteSumFile, MemDir.CopyFiles) with an optional disk fault on one of their writes (nothing / prefix / everything written, error returned) interleaved with adversary edits of the storage (byte flip/insert/delete, add first/middle/last, remove, rename, swap contents, gain/lose the sum-ignore line, body edit of a sum-ignored file, non-.sql file, atlas.sum character/line edits, removal, truncation); after every step Validate is compared with an independent reference implementation of the sum format and with the 'valid before + tamper => invalid after' rule; distinct = distinct trace hash among runs with at least one fault or tamper",
-		RequiredProbes: []string{"ref-compared", "tamper-on-valid-directory", "sum-file-edited", "torn-sum-file", "edit-body-of-sum-ignored-file", "sum-ignore-directive-present", "sum-ignored-file-added-removed-renamed"},
+		RequiredProbes: []string{"ref-compared", "tamper-on-valid-directory", "sum-file-edited", "torn-sum-file", "edit-body-of-sum-ignored-file", "sum-ignore-directive-present", "sum-ignored-file-added-removed-renamed", "import-unpadded-versions", "import-flyway-repeatable"},
 		RequiredFaults: []string{"dir-write-fails/file", "dir-write-torn/file", "dir-write-error-after-durable/file", "dir-write-fails/sum", "dir-write-torn/sum", "dir-write-error-after-durable/sum", "tamper/flip-byte", "tamper/add-file(first)", "tamper/add-file(middle)", "tamper/add-file(last)", "tamper/remove-file", "tamper/rename-file", "tamper/swap-contents", "tamper/sum-replace-char", "tamper/sum-delete-line", "tamper/sum-duplicate-line", "tamper/sum-swap-lines", "tamper/remove-sum-file", "writer/migrate-new", "writer/migrate-hash", "writer/migrate-diff", "writer/import-goose", "writer/import-dbmate", "writer/import-golang-migrate", "writer/import-flyway", "writer/import-liquibase", "consumer/apply"},
 		Real:           []string{"migrate.Validate, HashFile (NewHashFile, Sum, MarshalText, UnmarshalText), readHashFile", "migrate.LocalDir on real files, MemDir.CopyFiles", "Planner.WritePlan / WriteCheckpoint / writeSum, DefaultFormatter", "clisim part: the CLI binary (migrate new / hash / diff / import / validate / apply) on real files and a real SQLite dev database"},
 		Stub:           []string{"FaultDir wrapper at the Dir seam (failed / torn / error-after-durable writes)", "no driver (writers that need none)"},
